@@ -238,9 +238,8 @@ class TestcaseChar(Testcase):
         if (self.before or self.after) and self.parts:
             # Move the line break at the end of the last line out of the reducible
             # part so the "DDEND" line doesn't get combined with another line.
-            self.parts.pop()
+            self.after = self.parts.pop() + self.after
             self.reducible.pop()
-            self.after = b"\n" + self.after
 
     def split_parts(self, data: bytes) -> None:
         orig = len(self.parts)
